@@ -72,3 +72,22 @@ Definition wf_field (dep : nat) (bs : list byte) (num typ n : N) : Prop :=
 
 (* a sequence of well-formed fields (a message body / group body) *)
 Definition wf_fields (dep : nat) (bs : list byte) : Prop := wf_seq (wf_value dep) bs.
+
+(* ---------- well-formed wire trees (for render/parse round trips) ---------- *)
+Fixpoint wf_val (v : wval) : Prop :=
+  match v with
+  | WVarint x => x < 2^64
+  | WFixed32 b => length b = 4%nat
+  | WFixed64 b => length b = 8%nat
+  | WLen b => N.of_nat (length b) < 2^64
+  | WGroup fs => (fix all (l : list (N * wval)) : Prop :=
+                    match l with [] => True | p :: r => num_ok (fst p) /\ wf_val (snd p) /\ all r end) fs
+  end.
+
+(* group nesting depth of a tree *)
+Fixpoint wdepth (v : wval) : nat :=
+  match v with
+  | WGroup fs => S ((fix mx (l : list (N * wval)) : nat :=
+                       match l with [] => O | p :: r => Nat.max (wdepth (snd p)) (mx r) end) fs)
+  | _ => O
+  end.
